@@ -49,3 +49,8 @@ claim("C09",
       "A complete inventory of the instructions that can raise a Go run-time panic in the HIDI-owned code reachable from ParseData / readDeviceConfig / LoadHIDIConfig (nil dereference of optional decoded pointers, integer division, indexing, nil-map stores, explicit panics, unchecked assertions), each discharged by a dominating guard on the same access path, an interval fact or a length fact (incl. regexp submatch lengths from the constant pattern); plus a termination shape rule (only range / counted loops, no recursion, no channel operations) and an error-discipline rule (every error result is tested and its failure edge cannot reach a success return). Positive/negative controls keep the generic rules alive. NOT decided: panics or hangs inside the third-party TOML decoder, which is called without a recover guard.",
       COMMON_NOTE + " The TOML decoder, strconv and regexp are trusted to return for every input.",
       "may-panic inventory over go/ssa discharged by dominating guards/intervals keyed by access path; CFG loop classification; error-edge reachability (with controls)")
+
+claim("C10",
+      "Decides (a) field correspondence: every scalar destination field of the configuration built by ParseData is computed from exactly the TOML leaf field(s) that must determine it (backward slice over SSA, with control sources at phis), every one of the 37 decoded leaf fields reaches the result, and per analog mapping type the runtime's reads of config.Analog are a subset of the parser's writes; (b) validation before acceptance: notes, controllers, key and analog channel offsets, velocity, default channel, default mapping index are proven within their range at the store (dominating guards), closed vocabularies (action, mapping type, collision mode) are looked up in their Supported* table with that very value, DisallowUnknownFields precedes Decode, every error return hands out the zero Config and configurations are only built by ParseData.",
+      COMMON_NOTE + " go-toml's decoding of TOML spellings into the struct is trusted.",
+      "per-field backward slicing (taint) over go/ssa against a reviewed correspondence table + interval/guard proofs at store sites + reader/writer set agreement")
